@@ -76,8 +76,16 @@ impl<T: Float + core::fmt::Display> core::fmt::Display for KahanSum<T> {
 
 impl<T: Float> core::ops::AddAssign<Self> for KahanSum<T> {
     fn add_assign(&mut self, rhs: Self) {
-        kahan_add(&mut self.sum, rhs.sum, &mut self.compensation);
-        kahan_add(&mut self.sum, rhs.compensation, &mut self.compensation);
+        // The error recovery in `kahan_add` is only exact when the running sum dominates the
+        // value being added, so the register with the smaller sum is merged into the larger one.
+        let (mut large, small) = if rhs.sum.abs() > self.sum.abs() {
+            (rhs, *self)
+        } else {
+            (*self, rhs)
+        };
+        kahan_add(&mut large.sum, small.sum, &mut large.compensation);
+        kahan_add(&mut large.sum, small.compensation, &mut large.compensation);
+        *self = large;
     }
 }
 
